@@ -19,7 +19,11 @@ Tie to the source (DESIGN.md 4.2, 4.3, 6.10):
     so getPeriod() of a subclass of the real wpilib.Counter is overridden) and
     the pressure sensor (AnalogInputSim, fresh sensor per case, optional
     calibrate()) against the Q model inside Coq, |impl - model| <= 1e-12 *
-    (|model| + slack), floats passed as exact binary rationals.
+    (|model| + slack), floats passed as exact binary rationals;
+  * HISTORIES: one sensor object and a sequence of calls (reads before, between
+    and after calibrations, recalibrations, calibrate(-25) which raises); every
+    call's result against `observations` of the model inside Coq, and the oracle
+    `check_history` states the calibration clause over the object's lifetime.
 """
 import importlib
 import json
